@@ -40,13 +40,13 @@ def plan(tier, seed):
     k = 8 if tier == 'quick' else 12
     for i in range(k):
         shards.append({'name': 'exhaustive-%d' % i, 'fn': 'shard_exhaustive', 'args': {'part': i, 'parts': k}})
-    r = 6 if tier == 'quick' else 12
+    r = 6 if tier == 'quick' else 28
     for i in range(r):
         shards.append({'name': 'random-%d' % i, 'fn': 'shard_random', 'args': {'part': i, 'parts': r}})
     shards.append({'name': 'scores', 'fn': 'shard_scores', 'args': {}})
     shards.append({'name': 'many-distinct-tuples', 'fn': 'shard_many_tuples', 'args': {}})
     shards.append({'name': 'reference-json', 'fn': 'shard_reference_json', 'args': {}})
-    for i in range(2 if tier == 'quick' else 6):
+    for i in range(2 if tier == 'quick' else 12):
         shards.append({'name': 'pipeline-%d' % i, 'fn': 'shard_pipeline', 'args': {'part': i}})
     return shards
 
